@@ -11,7 +11,7 @@ from vcheck import coq_string, coq_list, coq_z
 
 HEADER = "From V.C13 Require Import Model Spec Run.\nOpen Scope string_scope.\n"
 
-KEYS = ["X-A", "X-B", "Content-Type", "Location", "Set-Cookie", "x-a", "content-type", "LOCATION", "x-B"]
+KEYS = ["X-A", "X-B", "Content-Type", "Location", "Set-Cookie", "x-a", "content-type", "LOCATION", "x-B", "X_Trace_Id", "x.y~Z-w"]
 VALS = ["1", "2", "text/plain"]
 CODES = [200, 201, 204, 302, 404, 500]
 BODIES = ["", "a", "bc"]
